@@ -53,6 +53,8 @@ type Op struct {
 	IK     string `json:"ik,omitempty"`
 	// Via: "" = Commander call, "v2" / "v1" = through the real HTTP handlers (posting-mode requests)
 	Via string `json:"via,omitempty"`
+	// PreviewParam: for HTTP requests that are not previews, the value the preview option is explicitly given (false, 0, ...)
+	PreviewParam string `json:"preview_param,omitempty"`
 	// CancelAt > 0: the request's context is cancelled when its client reaches its CancelAt-th hook point
 	CancelAt int `json:"cancel_at_hook,omitempty"`
 	// what the script grants (for the C02 oracle): account -> "unbounded" or decimal bound
@@ -530,6 +532,8 @@ func execHTTP(ctx context.Context, g *Generation, op Op) *Result {
 	q := ""
 	if op.DryRun {
 		q = map[string]string{"v2": "?dryRun=true", "v1": "?preview=true"}[op.Via]
+	} else if op.PreviewParam != "" { // the option spelled out as off
+		q = map[string]string{"v2": "?dryRun=", "v1": "?preview="}[op.Via] + op.PreviewParam
 	}
 	req, err := http.NewRequestWithContext(ctx, "POST", "http://ledger.test"+target+q, bytes.NewReader(b))
 	if err != nil {
